@@ -2723,6 +2723,28 @@ example : SameRecipe (α := Rat) (fun c => c = ' ')
   rw [e1, e2] at h
   exact h
 
+/-! … and a block comment over three lines, the middle one blank: `Mix [- a⏎⏎b -] well⏎` -/
+example : SameRecipe (α := Rat) (fun c => c = ' ')
+    (parseRecipe C17_toyEnv "Mix [- a\n\nb -] well\n".toList) (parseRecipe C17_toyEnv "Mix well\n".toList) := by
+  have h := C17_insertion_in_text_same_recipe_inline_off (α := Rat) C17_toyEnv (fun c => c = ' ') (by decide) []
+    [] [] [tk .newline ['\n']] [] [] [tk .word "Mix".toList, tk .ws [' ']]
+    [tk .blockComment "[- a\n\nb -]".toList, tk .ws [' ']] [tk .word "well".toList]
+    (by intro t ht; simp only [List.mem_cons, List.not_mem_nil, or_false] at ht; rcases ht with rfl | rfl <;> rfl)
+    (by decide)
+    (by decide) (Or.inr (Or.inr ⟨"Mix".toList, ' ', by decide, by decide⟩)) (by intro s hs; cases hs)
+    (C17_exDocWF _ (by decide) (by
+      intro d hd
+      simp only [List.nil_append, List.mem_cons, List.not_mem_nil, or_false] at hd
+      subst hd; exact ⟨_, rfl⟩))
+    (by decide)
+  have e1 : render ([] ++ docSpec ([] ++ (DocItem.step ([] ++ SegX.text ([tk .word "Mix".toList, tk .ws [' ']] ++
+      [tk .blockComment "[- a\n\nb -]".toList, tk .ws [' ']] ++ [tk .word "well".toList]) :: []), [tk .newline ['\n']]) :: [])) =
+      "Mix [- a\n\nb -] well\n".toList := by decide
+  have e2 : render ([] ++ docSpec ([] ++ (DocItem.step ([] ++ SegX.text ([tk .word "Mix".toList, tk .ws [' ']] ++
+      [tk .word "well".toList]) :: []), [tk .newline ['\n']]) :: [])) = "Mix well\n".toList := by decide
+  rw [e1, e2] at h
+  exact h
+
 /-- **Obstacle (i), first step only: whether `find_inline_quantity` finds a quantity does not depend on the
     text in front of the scanned position** (that text only enters the `before` part and the sign of a hit), for
     every fuel.  The invariance of the scan under blanks inserted next to blanks (the word-by-word induction
